@@ -5,7 +5,7 @@ import hashsigs
 
 RULE = ("all 6 hashes x parameter lists of 1..8 levels (every W; heights H2/H5, one H10) x random seeds: private key blob and public key bytes compared with the "
         "Impl model and with an independent transcription of the hash-sigs derivation (tools/rfc8554.py); internal derivations (root seed/I, child seed/I, "
-        "randomizer, tree nodes) compared through hooks")
+        "randomizer, tree nodes) compared through hooks; 32-byte Seed objects with non-zero tails for the truncated hashes; leaves of tall trees (hook) on both sides of 2^8 and 2^16")
 ASSUMPTIONS = ["for SHA-256/32 the cisco hash-sigs tool shipped in the repository (tests/demo) is run on the same seed and parameter list and its key files are compared byte for byte",
                "for the other five hashes (which hash-sigs does not implement) the oracle is an independent transcription of the same construction (tools/rfc8554.py)"]
 
@@ -20,6 +20,13 @@ def run(ctx):
         specs.append((H, [(rng.choice([1, 2, 3, 4]), 5), (3, 1)], rng.bytes_(HASHES[H])))
     cases = [Case(keygen_line(H, ps, seed), "keygen/L%d/%s" % (len(ps), H), {"spec": (H, ps, seed)}) for (H, ps, seed) in specs]
     keys = []
+    # Seed objects built from 32 bytes (Seed::from): for the truncated hashes the bytes behind the seed are not inputs of the derivation
+    for H in ("S24", "S16", "K24", "K16"):
+        n = HASHES[H]
+        seed = rng.bytes_(n)
+        ps = rng.choice([[(3, 1)], [(3, 1), (2, 1)], [(3, 5)]])
+        for tail in (b"\xa5" * (32 - n), rng.bytes_(32 - n)):
+            cases.append(Case("keygen H=%s params=%s seedfull=%s aux=none" % (H, params_str(ps), hx(seed + tail)), "keygen/seed-object-32-bytes", {"spec": (H, ps, seed)}))
     for c, a, b in ctx.both(cases, None):
         H, ps, seed = c.meta["spec"]
         if not a.startswith("ok"):
